@@ -1,6 +1,8 @@
 import PartituraModel.Wire
 import PartituraModel.Model.XmlMeasure
 import PartituraModel.Model.RangeNumbers
+import PartituraModel.Model.XmlNote
+import PartituraModel.Model.XmlDir
 
 open Wire Model.Xml
 open Model.Ranges (Mark TieNote)
@@ -52,6 +54,229 @@ def fmtNoteOut (n : NoteOut) : String :=
 
 def fmtVoices (l : List (Nat × List NoteIn)) : String :=
   fmtList (fun (e : Nat × List NoteIn) => fmtNat e.1 ++ "=" ++ fmtList (fun (n : NoteIn) => fmtNat n.idx) e.2) l
+
+
+/-! ### element codecs (Model/XmlNote.lean) -/
+
+namespace XmlWire
+open Model.XmlNote
+
+def articNames : List (String × Artic) :=
+  [("accent", .accent), ("breath-mark", .breathMark), ("caesura", .caesura), ("detached-legato", .detachedLegato),
+   ("doit", .doit), ("falloff", .falloff), ("plop", .plop), ("scoop", .scoop), ("soft-accent", .softAccent),
+   ("spiccato", .spiccato), ("staccatissimo", .staccatissimo), ("staccato", .staccato), ("stress", .stress),
+   ("strong-accent", .strongAccent), ("tenuto", .tenuto), ("unstress", .unstress)]
+
+def tagNames : List (String × Tag) :=
+  [("note", .note), ("grace", .grace), ("chord", .chord), ("pitch", .pitch), ("step", .step), ("alter", .alter),
+   ("octave", .octave), ("unpitched", .unpitched), ("display-step", .displayStep), ("display-octave", .displayOctave),
+   ("notehead", .notehead), ("rest", .rest), ("duration", .duration), ("tie", .tie), ("voice", .voice), ("stem", .stem),
+   ("type", .type), ("dot", .dot), ("time-modification", .timeModification), ("actual-notes", .actualNotes),
+   ("normal-notes", .normalNotes), ("staff", .staff), ("notations", .notations), ("tied", .tied), ("fermata", .fermata),
+   ("articulations", .articulations), ("technical", .technical), ("fingering", .fingering), ("slur", .slur),
+   ("tuplet", .tuplet), ("tuplet-actual", .tupletActual), ("tuplet-normal", .tupletNormal),
+   ("tuplet-number", .tupletNumber), ("tuplet-type", .tupletType),
+   ("direction", .direction), ("direction-type", .directionType), ("dynamics", .dynamics), ("wedge", .wedge),
+   ("words", .words), ("dashes", .dashes), ("pedal", .pedal), ("sound", .sound),
+   ("attributes", .attributes), ("divisions", .divisions), ("key", .key), ("fifths", .fifths), ("mode", .mode),
+   ("time", .time), ("beats", .beats), ("beat-type", .beatType), ("staves", .staves), ("clef", .clef), ("sign", .sign),
+   ("line", .line), ("clef-octave-change", .clefOctaveChange), ("staff-details", .staffDetails),
+   ("staff-lines", .staffLines)] ++ articNames.map fun e => (e.1, Tag.artic e.2)
+
+def attrNames : List (String × Attr) :=
+  [("id", .id), ("slash", .slash), ("filled", .filled), ("type", .type), ("number", .number),
+   ("placement", .placement), ("line", .line), ("sign", .sign), ("tempo", .tempo)]
+
+def tagOfName (s : String) : Tag :=
+  match tagNames.find? (·.1 == s) with
+  | some e => e.2
+  | none => .other s.toList
+
+def tagName (t : Tag) : String :=
+  match t with
+  | .other s => String.ofList s
+  | _ => match tagNames.find? (·.2 == t) with
+    | some e => e.1
+    | none => "?"
+
+def attrOfName (s : String) : Attr :=
+  match attrNames.find? (·.1 == s) with
+  | some e => e.2
+  | none => .other s.toList
+
+def attrName (a : Attr) : String :=
+  match a with
+  | .other s => String.ofList s
+  | _ => match attrNames.find? (·.2 == a) with
+    | some e => e.1
+    | none => "?"
+
+def hexDigit (n : Nat) : Char := if n < 10 then Char.ofNat (48 + n) else Char.ofNat (87 + n)
+
+/-- the harness's `_enc`: ASCII letters, digits, `_` and `.` stay, everything else is `%xx`; the empty string is `%` -/
+def encS (s : Str) : String :=
+  if s = [] then "%" else
+  String.ofList (s.flatMap fun c =>
+    if c.isAlphanum || c == '_' || c == '.' then [c] else ['%', hexDigit (c.toNat / 16 % 16), hexDigit (c.toNat % 16)])
+
+def pStr : P Str := do let s ← str; pure s.toList
+
+partial def pXml : P Xml := do
+  let t ← tok
+  let attrs ← list (do let a ← tok; let v ← pStr; pure (attrOfName a, v))
+  let text ← pStr
+  let kids ← list pXml
+  pure (.el (tagOfName t) attrs text kids)
+
+partial def fmtXml : Xml → String
+  | .el t attrs text kids =>
+    "(" ++ tagName t ++ ";" ++ ",".intercalate (attrs.map fun a => attrName a.1 ++ "=" ++ encS a.2) ++ ";" ++ encS text ++ ";" ++
+      ",".intercalate (kids.map fmtXml) ++ ")"
+
+def pGrace : P (Option GraceType) := do
+  let t ← tok
+  match t with
+  | "-" => pure none
+  | "g" => pure (some .grace)
+  | "a" => pure (some .acciaccatura)
+  | "p" => pure (some .appoggiatura)
+  | _ => P.fail
+
+def pBody : P Body := do
+  let k ← tok
+  match k with
+  | "p" => do
+    let step ← pStr; let alter ← opt int; let octave ← int; let g ← pGrace
+    pure (.pitched step alter octave g)
+  | "u" => do
+    let step ← pStr; let octave ← int
+    let nh ← opt (do let t ← pStr; let f ← bool; pure (t, f))
+    pure (.unpitched step octave nh)
+  | "r" => do let h ← bool; pure (.rest h)
+  | _ => P.fail
+
+def pArt : P ArtName := do
+  let t ← tok
+  match articNames.find? (·.1 == t) with
+  | some e => pure (.known e.2)
+  | none => pure .unknown
+
+def pTech : P Tech := do
+  let k ← tok
+  match k with
+  | "f" => do let n ← nat; pure (.fingering n)
+  | "o" => pure .otherNotation
+  | _ => P.fail
+
+def pTupletStart : P TupletStart := do
+  let k ← nat; let an ← opt int; let ta ← opt pStr; let nn ← opt int; let tn ← opt pStr
+  pure { number := k, actualNotes := an, actualType := ta, normalNotes := nn, normalType := tn }
+
+def pNoteAttrs : P NoteAttrs := do
+  let id ← opt pStr; let body ← pBody; let dur ← nat; let chord ← bool; let tp ← bool; let tn ← bool
+  let voice ← opt int; let stem ← opt pStr; let fermata ← bool; let arts ← list pArt; let tech ← list pTech
+  let symType ← opt pStr; let dots ← nat; let an ← opt int; let nn ← opt int; let staff ← opt int; let ns ← nat
+  let s0 ← list nat; let s1 ← list nat; let t0 ← list nat; let t1 ← list pTupletStart
+  pure { id := id, body := body, dur := dur, chord := chord, tiePrev := tp, tieNext := tn, voice := voice, stem := stem,
+         fermata := fermata, arts := arts, technical := tech, symType := symType, dots := dots, actualNotes := an,
+         normalNotes := nn, staff := staff, nStaves := ns, slurStops := s0, slurStarts := s1, tupletStops := t0,
+         tupletStarts := t1 }
+
+def fmtGrace : Option GraceType → String
+  | none => "-"
+  | some .grace => "grace"
+  | some .acciaccatura => "acciaccatura"
+  | some .appoggiatura => "appoggiatura"
+
+def fmtBodyR : BodyR → String
+  | .pitched step alter octave g =>
+    fmtTuple ["p", fmtOpt encS step, fmtOpt fmtInt alter, fmtOpt fmtInt octave, fmtGrace g]
+  | .unpitched step octave nh filled =>
+    fmtTuple ["u", fmtOpt encS step, fmtOpt fmtInt octave, fmtOpt encS nh, fmtBool filled]
+  | .rest => "(r)"
+
+def articName (a : Artic) : String :=
+  match articNames.find? (·.2 == a) with
+  | some e => e.1
+  | none => "?"
+
+def fmtInfo (i : TupletInfo) : String :=
+  fmtTuple [fmtInt i.actualNotes, encS i.actualType, fmtInt i.normalNotes, encS i.normalType]
+
+def fmtNoteRead (r : NoteRead) : String :=
+  fmtTuple [fmtOpt encS r.id, fmtBodyR r.body, fmtInt r.duration, fmtBool r.chord, fmtInt r.staff, fmtInt r.voice,
+    fmtOpt encS r.stem, fmtOpt encS r.symType, fmtNat r.dots, fmtOpt fmtInt r.actualNotes, fmtOpt fmtInt r.normalNotes,
+    fmtList articName r.arts, fmtList fmtNat r.fingering, fmtBool r.fermata, fmtBool r.tieStop, fmtBool r.tieStart,
+    fmtList (fun (m : Bool × Int) => fmtBool m.1 ++ ":" ++ fmtInt m.2) r.slurs,
+    fmtList (fun (m : TupletMark) => fmtBool m.isStart ++ ":" ++ fmtInt m.number ++ ":" ++ fmtOpt fmtInt_info m.info) r.tuplets]
+where fmtInt_info := fmtInfo
+
+end XmlWire
+
+namespace DirWire
+open Model.XmlNote Model.XmlDir XmlWire
+
+def pDirW : P DirW := do
+  let k ← tok
+  match k with
+  | "dyn" => do let n ← pStr; let st ← opt int; pure (.dyn n st)
+  | "wedge" => do let c ← bool; let n ← nat; let st ← opt int; pure (.wedgeStart c n st)
+  | "words" => do let t ← pStr; let d ← opt nat; let st ← opt int; pure (.words t d st)
+  | "stop" => do let w ← bool; let n ← nat; pure (.rangeStop w n)
+  | "ped" => do let l ← bool; let st ← opt int; pure (.pedalStart l st)
+  | "pedstop" => do let l ← bool; let st ← opt int; pure (.pedalStop l st)
+  | _ => P.fail
+
+def fmtRT : RangeType → String
+  | .start => "start"
+  | .stop => "stop"
+  | .other => "other"
+
+def fmtItem : DirItem → String
+  | .dynamics names => "dyn" ++ fmtList encS names
+  | .words texts => "words" ++ fmtList encS texts
+  | .wedgeStart c n => "wedge:" ++ fmtBool c ++ ":" ++ fmtInt n
+  | .wedgeStop n => "wedgestop:" ++ fmtInt n
+  | .wedgeOther => "wedgeother"
+  | .dashes t n => "dashes:" ++ fmtRT t ++ ":" ++ fmtInt n
+  | .pedal t l n => "pedal:" ++ fmtRT t ++ ":" ++ fmtBool l ++ ":" ++ fmtInt n
+  | .unsupported => "unsupported"
+
+def fmtDirRead (d : DirRead) : String := fmtTuple [fmtOpt fmtInt d.staff, fmtList fmtItem d.items]
+
+def fmtObj (o : DirObj) : String :=
+  fmtTuple [fmtNat o.start, fmtNat o.kind, encS o.text, fmtBool o.line, fmtOpt fmtInt o.staff, fmtOpt fmtNat o.stop]
+
+def pTempo : P TempoVal := do
+  let k ← tok
+  match k with
+  | "i" => do let n ← nat; pure (.whole n)
+  | "d" => do let ip ← nat; let fp ← pStr; pure (.dec ip fp)
+  | _ => P.fail
+
+def fmtTempo : TempoVal → String
+  | .whole n => "i:" ++ fmtNat n
+  | .dec ip fp => "d:" ++ fmtNat ip ++ ":" ++ encS fp
+
+def pAttrItem : P AttrItem := do
+  let k ← tok
+  match k with
+  | "div" => do let q ← int; pure (.divisions q)
+  | "key" => do let f ← int; let m ← opt pStr; pure (.key f m)
+  | "time" => do let a ← int; let b ← int; pure (.time a b)
+  | "sd" => do let l ← opt int; pure (.staffDetails l)
+  | "clef" => do let st ← opt int; let sg ← pStr; let l ← opt int; let oc ← opt int; pure (.clef st sg l oc)
+  | _ => P.fail
+
+def fmtClef (c : ClefRead) : String :=
+  fmtTuple [fmtInt c.staff, fmtOpt encS c.sign, fmtOpt fmtInt c.line, fmtOpt fmtInt c.octaveChange]
+
+def fmtAttrRead (a : AttrRead) : String :=
+  fmtTuple [fmtOpt (fun (p : Int × Int) => fmtInt p.1 ++ "/" ++ fmtInt p.2) a.time,
+    fmtOpt (fun (p : Option Int × Option Str) => fmtOpt fmtInt p.1 ++ "/" ++ fmtOpt encS p.2) a.key,
+    fmtOpt fmtInt a.divisions, fmtList fmtClef a.clefs]
+
+end DirWire
 
 def handle (ts : List String) : String :=
   match ts with
@@ -108,6 +333,89 @@ def handle (ts : List String) : String :=
     match run (list pNoteIn) rest with
     | some ns => fmtVoices (assignVoices ns)
     | none => "bad-request"
+  | "wnote" :: rest =>
+    match run XmlWire.pNoteAttrs rest with
+    | some n => XmlWire.fmtXml (Model.XmlNote.writeNote n) ++ "/" ++ fmtBool (decide (Model.XmlNote.WellFormedNote n))
+    | none => "bad-request"
+  | "rnote" :: rest =>
+    match run XmlWire.pXml rest with
+    | some x =>
+      match Model.XmlNote.readNote x with
+      | some r => XmlWire.fmtNoteRead r
+      | none => "err"
+    | none => "bad-request"
+  | "cnote" :: rest =>
+    match run XmlWire.pNoteAttrs rest with
+    | some n => XmlWire.fmtNoteRead (Model.XmlNote.canon n)
+    | none => "bad-request"
+  | "evnote" :: rest =>
+    match run (do let i ← nat; let x ← XmlWire.pXml; pure (i, x)) rest with
+    | some (i, x) =>
+      match Model.XmlNote.toEv i x with
+      | some e => fmtEv e
+      | none => "err"
+    | none => "bad-request"
+  | "wdir" :: rest =>
+    match run DirWire.pDirW rest with
+    | some d => XmlWire.fmtXml (Model.XmlDir.writeDir d) ++ "/" ++ fmtBool (decide (Model.XmlDir.WellFormedDir d))
+    | none => "bad-request"
+  | "cdir" :: rest =>
+    match run DirWire.pDirW rest with
+    | some d => DirWire.fmtDirRead (Model.XmlDir.canonDir d)
+    | none => "bad-request"
+  | "rdir" :: rest =>
+    match run XmlWire.pXml rest with
+    | some x =>
+      match Model.XmlDir.readDir x with
+      | some r => DirWire.fmtDirRead r
+      | none => "err"
+    | none => "bad-request"
+  | "dirs" :: rest =>
+    match run (list XmlWire.pXml) rest with
+    | some xs =>
+      match xs.mapM Model.XmlDir.readDir with
+      | some ds =>
+        -- the order of objects inside one time point is not observable: sorted text
+        "[" ++ ",".intercalate (((Model.XmlDir.readDirections ds).objs.map DirWire.fmtObj).mergeSort (fun a b => decide (a ≤ b))) ++ "]"
+      | none => "err"
+    | none => "bad-request"
+  | "slots" :: rest =>
+    match run (list (do let n ← nat; let st ← bool; let k ← nat
+                        pure ({ note := n, time := 0, isStart := st, number := k } : Mark))) rest with
+    | some ms => fmtList (fun (p : Nat × Nat) => fmtTuple [fmtNat p.1, fmtNat p.2]) (Model.XmlDir.slotAll ms).2
+    | none => "bad-request"
+  | "dyns" :: rest =>
+    fmtList (fun (n : String) => n ++ ":" ++ (match Model.XmlDir.dynClass n.toList with
+      | some true => "I" | some false => "C" | none => "-")) rest
+  | "wsound" :: rest =>
+    match run DirWire.pTempo rest with
+    | some t => XmlWire.fmtXml (Model.XmlDir.writeSound t) ++ "/" ++ fmtBool (decide (Model.XmlDir.WellFormedTempo t))
+    | none => "bad-request"
+  | "rsound" :: rest =>
+    match run XmlWire.pXml rest with
+    | some x =>
+      match Model.XmlDir.readSound x with
+      | some r => fmtOpt DirWire.fmtTempo r
+      | none => "err"
+    | none => "bad-request"
+  | "wattr" :: rest =>
+    match run (do let items ← list DirWire.pAttrItem; let st ← opt nat; pure (items, st)) rest with
+    | some (items, st) =>
+      XmlWire.fmtXml (Model.XmlDir.writeAttributes items st) ++ "/" ++ fmtBool (decide (Model.XmlDir.WellFormedAttrs items))
+    | none => "bad-request"
+  | "cattr" :: rest =>
+    match run (list DirWire.pAttrItem) rest with
+    | some items => DirWire.fmtAttrRead (Model.XmlDir.canonAttrs items)
+    | none => "bad-request"
+  | "rattr" :: rest =>
+    match run XmlWire.pXml rest with
+    | some x =>
+      match Model.XmlDir.readAttributes x with
+      | some r => DirWire.fmtAttrRead r
+      | none => "err"
+    | none => "bad-request"
+  | "arts" :: rest =>
+    fmtList (fun (n : String) => n ++ ":" ++ fmtBool (XmlWire.articNames.any (·.1 == n))) rest
   | _ => "bad-request"
 
 def main : IO Unit := mainLoop handle
